@@ -96,15 +96,6 @@ Lemma variants_ir_fix r s params : forall l u,
 Proof.
   induction l as [|v l IH]; intros u; [reflexivity|].
   rewrite variants_ir_cons.
-  match goal with
-  | |- ?g (v :: l) u = _ =>
-      change (g (v :: l) u) with
-        (let* vn := parse_ident (v_name v) in
-         let* ku := create_composite_ir_kind r s (v_fields v) params u in
-         let* rest := g l (snd ku) in
-         Ok ((v_index v, mk_ci vn (fst ku) (docs_from_scale_info s (v_docs v))) :: fst rest,
-             snd rest))
-  end.
   apply bind_ext; intros vn. apply bind_ext; intros ku. rewrite IH. reflexivity.
 Qed.
 
